@@ -53,6 +53,14 @@ func runOne(ctx context.Context, sp solverSpec, file string, timeoutS int) (stat
 	_ = cmd.Run()
 	dur = time.Since(t0).Seconds()
 	out = buf.String()
+	// solvers may print warnings before the answer
+	for strings.HasPrefix(out, "WARNING") || strings.HasPrefix(out, "(warning") {
+		i := strings.Index(out, "\n")
+		if i < 0 {
+			break
+		}
+		out = out[i+1:]
+	}
 	first := strings.TrimSpace(strings.SplitN(out, "\n", 2)[0])
 	switch first {
 	case "unsat", "sat", "unknown":
